@@ -454,6 +454,12 @@ func (w *c18bWorld) Run(c *kernel.RunCtx) {
 			progs[i] = &program{unlock: []byte{0x51}, lock: []byte{0x51, 0x87}, flags: progs[i].flags, src: "replacement-for-long-script"}
 		}
 		withDbg[i] = c.Bool(1, 2)
+		// some validators run scripts without a transaction context (WithScripts), as callers that only
+		// evaluate scripts do; signed programs keep their transaction
+		if progs[i].txBytes == nil && c.Bool(1, 3) {
+			progs[i].scriptsOnly = true
+			c.Count("probe.scripts_only_validator", 1)
+		}
 		c.End()
 	}
 	c.End()
